@@ -100,12 +100,24 @@ func FetchBlockFromMergedBlocksStore(
 		// stop right here: the stop block option cannot express "stop at block 0"
 		return dstore.StopIteration
 	})
+	// the block can only be in the bundle of its number: a file source would wait for ever for a bundle that does
+	// not exist, and past the end of this one when no block of it reaches `num`
+	const bundleSize = uint64(100)
+	base := num - num%bundleSize
+	exists, err := store.FileExists(ctx, fmt.Sprintf("%010d", base))
+	if err != nil {
+		return nil, fmt.Errorf("checking merged blocks file existence: %w", err)
+	}
+	if !exists {
+		return nil, dstore.ErrNotFound
+	}
 	fs := NewFileSource(
 		store,
 		num,
 		h,
 		zap.NewNop(),
-		FileSourceWithStopBlock(num),
+		FileSourceWithBundleSize(bundleSize),
+		FileSourceWithStopBlock(base+bundleSize-1),
 	)
 	fs.Run()
 	<-fs.Terminated()
